@@ -22,11 +22,20 @@
 (*                                                                         *)
 (* Overlay addresses are strings, underlay address:port are integers; the  *)
 (* harness concretises both (table in harness/_root/zz_verif_lh_test.go).  *)
+(*                                                                         *)
+(* Encoding: an IPv4 underlay address may travel as a V4AddrPort or as an  *)
+(* IPv4-mapped entry of V6AddrPorts (::ffff:a.b.c.d); id + 100 is the      *)
+(* mapped spelling of the IPv4 address id.  An address is judged by what   *)
+(* it IS (Unmap); destinations are addresses, not spellings.               *)
+(* Configuration: lighthouse.hosts is state (Reload); the role             *)
+(* (am_lighthouse) is fixed at start-up, a reload that flips it in the     *)
+(* file changes nothing.                                                   *)
 (***************************************************************************)
 EXTENDS Integers, Sequences, FiniteSets, TLC
 
 CONSTANTS Mode,       \* "C35V" gate table, "C35R" histories, "C36R" pipeline histories
-          Thorough
+          Thorough,
+          Salt        \* rotates the samples of the quick tier (VERIF_SEED)
 
 MaxRemotes == 10
 Range(s) == {s[i] : i \in 1..Len(s)}
@@ -52,12 +61,18 @@ InOverlaySet    == {4, 5, 41}                \* 10.128.7.7  fd00:80::77  10.128.
 DeniedGlobalSet == {6, 8, 42}                \* 203.0.113.9 2001:db8:dead::8 203.0.113.5 remote_allow_list: false
 DeniedPeerSet   == {7, 43, 44}               \* 198.51.100.9 198.51.100.5 2001:db8:beef::9  remote_allow_ranges[10.128.1.0/24]: false
 DeniedLhSet     == {45, 46}                  \* 192.0.2.200 2001:db8:cafe::9            remote_allow_ranges[10.128.0.0/24]: false
-UFam(x) == IF x \in {3, 5, 8, 44, 46, 47, 48} THEN 6 ELSE 4  \* everything else: 192.0.2.x (and 2001:db8:1::3, ::47, ::48), allowed
+\* spelling: id + 100 = the IPv4 address id written as an IPv4-mapped IPv6 address (only IPv4 ids have one)
+IsMapped(x) == x > 100
+Unmap(x)    == IF x > 100 THEN x - 100 ELSE x
+UnmapSeq(s) == [i \in 1..Len(s) |-> Unmap(s[i])]
+UFam(x) == IF Unmap(x) \in {3, 5, 8, 44, 46, 47, 48} THEN 6 ELSE 4  \* what the address is; everything else: 192.0.2.x (and 2001:db8:1::3, ::47, ::48), allowed
+WFam(x) == IF IsMapped(x) THEN 6 ELSE UFam(x)                       \* which list of a message / which half of a cell carries it
 PreferredSet == {2, 5}                       \* preferred_ranges 192.0.2.2/32, fd00:80::/64
 
-InOverlay(x)    == x \in InOverlaySet
-DeniedGlobal(x) == x \in DeniedGlobalSet
-DeniedFor(p, x) == (x \in DeniedPeerSet /\ p \in RangePeers) \/ (x \in DeniedLhSet /\ p \in LhRangePeers)
+\* the classes are properties of the address, whatever its spelling
+InOverlay(x)    == Unmap(x) \in InOverlaySet
+DeniedGlobal(x) == Unmap(x) \in DeniedGlobalSet
+DeniedFor(p, x) == (Unmap(x) \in DeniedPeerSet /\ p \in RangePeers) \/ (Unmap(x) \in DeniedLhSet /\ p \in LhRangePeers)
 Allow(p, x)     == ~DeniedGlobal(x) /\ ~DeniedFor(p, x)                \* RemoteAllowList.Allow(p, x)
 AllowAll(ps, x) == \A p \in ps : Allow(p, x)                           \* RemoteAllowList.AllowAll
 ShouldAdd(p, x) == Allow(p, x) /\ ~InOverlay(x)                        \* LightHouse.unlockedShouldAddV4/V6
